@@ -276,8 +276,35 @@ VDepthBig(r) ==
         ELSE IF ~deep /\ r.n # r.count THEN Rej("C18 result within the limit is not the full result", <<>>)
         ELSE Acc
 
+(* ---- anchors: the RFC's own example tables, evaluated by the specification ---------- *)
+\* (selftest) r.want: the values the RFC example expects, r.valid: the RFC's verdict
+VAnchorFind(r) ==
+    LET p == Parse(r.q, TRUE)
+    IN  IF ~p.ok THEN Rej("ANCHOR the specification rejects an RFC example query", <<p.why, p.i>>)
+        ELSE LET nl == Find(p.v, r.doc, RegOf(r))
+             IN  IF [k \in 1..Len(nl) |-> nl[k].v] # r.want
+                 THEN Rej("ANCHOR the specification disagrees with an RFC example", <<ToJson([k \in 1..Len(nl) |-> nl[k].loc])>>)
+                 ELSE Acc
+VAnchorValid(r) ==
+    LET cv == CompileVerdict(r.q, RegOf(r), LoOf(r), HiOf(r))
+    IN  IF (cv.v = "accept") # r.valid THEN Rej("ANCHOR well-typedness verdict differs from the RFC table", <<cv.v, cv.why>>)
+        ELSE Acc
+VAnchorCmp(r) ==
+    IF Cmp(r.cmp, r.left, r.right) # r.want THEN Rej("ANCHOR comparison differs from the RFC table", <<>>) ELSE Acc
+VAnchorRe(r) ==
+    LET p == ReParse(r.pattern)
+    IN  IF p.ok # r.valid THEN Rej("ANCHOR I-Regexp validity differs from the example list", <<>>) ELSE Acc
+VAnchorCat(r) ==
+    LET row == CatRow(r.cp)
+    IN  IF row = <<>> \/ <<row[1][2], row[1][3]>> # r.cat THEN Rej("ANCHOR category table differs from unicodedata", <<r.cp>>) ELSE Acc
+
 Verdict(r) ==
     CASE r.op = "compile" -> VCompile(r)
+      [] r.op = "anchor_find"  -> VAnchorFind(r)
+      [] r.op = "anchor_valid" -> VAnchorValid(r)
+      [] r.op = "anchor_cmp"   -> VAnchorCmp(r)
+      [] r.op = "anchor_re"    -> VAnchorRe(r)
+      [] r.op = "anchor_cat"   -> VAnchorCat(r)
       [] r.op = "depth"   -> VDepth(r)
       [] r.op = "depthbig" -> VDepthBig(r)
       [] r.op = "nondet"  -> VNondet(r)
